@@ -52,7 +52,9 @@
    - c01_mpegts_history_accounting: the same for the MPEG-TS variant (specification tspec in Model/MuxSpec.v: one
      log without look-ahead, "random access seen" per track, "the presentation has started"): for every
      configuration Start accepts and every history of successful writes the model's log, flags and openness
-     are the specification's; c01_mpegts_accounting_nonvacuous.
+     are the specification's; c01_mpegts_accounting_nonvacuous; c01_mpegts_video_track_closed_form: the units of a
+     video track in the log are exactly the access units written to it that were not skipped before the first
+     random-access one, each once, in writing order.
    PARTIAL in one respect, decided on every run by the correspondence run (every decoded sample of
    every published part / segment is compared with the model's, all six codecs) and by the oracle
    over the harness's own write log: that the bytes served for a part / segment decode to the
@@ -292,3 +294,12 @@ Theorem c01_closed_form_nonvacuous : exists m0 cf si,
   /\ map (fun s => (s_pay s, s_dts s)) (accepted cf (offered cf 0 false ex_ops)) = [(11, 900000); (12, 903000); (13, 906000)].
 Proof. exact closed_form_example. Qed.
 Print Assumptions c01_closed_form_nonvacuous.
+
+(* ---- MPEG-TS: the units of a video track in the log are exactly the access units written to it that were not
+   skipped before the first random-access one, each once, in writing order ---- *)
+Theorem c01_mpegts_video_track_closed_form : forall c m0 ops ti cf ld si,
+  start c = Ok m0 -> c_variant c = MPEGTS -> all_ok m0 ops ->
+  nth_error (map tk_static (m_tracks m0)) ti = Some (cf, ld, si) -> isVideo (t_kind cf) = true ->
+  of_track ti (tslog (mux_run m0 ops)) = map (tsp_video_unit ti cf) (tsv_offered ti false ops).
+Proof. exact ts_video_track_closed_form. Qed.
+Print Assumptions c01_mpegts_video_track_closed_form.
